@@ -18,23 +18,26 @@ Definition w_fresh_disable_remove : list op := [New 0 0; Upd UDisableAll 0; Remo
 Definition w_fresh_disable_poll : list op := [New 0 0; Upd UDisableAll 0; Poll readyHUP []].
 
 Ltac no_taker :=
-  let c := fresh "c" in let s := fresh "s" in let H := fresh "H" in let R := fresh "R" in let F := fresh "F" in
-  intros [c [s [H [R F]]]];
-  repeat (destruct c as [|c]; [cbn in H; try discriminate; try (injection H as <-; cbn in R, F; congruence)|]);
-  cbn in H; discriminate.
+  intros [c__ [s__ [H__ [R__ F__]]]];
+  do 2 (destruct c__ as [|c__]; [cbn in H__; try discriminate; try (injection H__ as <-; cbn in R__, F__; congruence)|]);
+  cbn in H__; discriminate.
 
 Ltac guard_upd := eexists; split; [reflexivity|]; first [left; reflexivity | right; no_taker].
 
+Ltac hstep := cbn [hist_ok]; refine (conj _ (conj _ _)); cbn.
+Ltac clean_by_compute := let s := fresh "s" in let H := fresh "H" in
+  intros s H; injection H as <-; vm_compute; discriminate.
+
 Lemma w_reregister_ok : hist_ok sclean spec0 w_reregister.
 Proof.
-  unfold w_reregister. cbn [hist_ok]. repeat split.
-  - guard_upd.
-  - cbn. intros s H. injection H as <-. vm_compute. discriminate.
-  - cbn. guard_upd.
-  - cbn. intros s H. injection H as <-. cbn. intros _. split; [reflexivity|]. vm_compute. discriminate.
-  - cbn. eexists. split; [reflexivity|]. split; reflexivity.
-  - cbn. guard_upd.
-  - cbn. intros s H. injection H as <-. vm_compute. discriminate.
+  unfold w_reregister.
+  hstep; [reflexivity|exact I|].
+  hstep; [guard_upd|clean_by_compute|].
+  hstep; [guard_upd| |].
+  { intros s H. injection H as <-. intros _. split; [reflexivity|]. vm_compute. discriminate. }
+  hstep; [eexists; split; [reflexivity|]; split; reflexivity|exact I|].
+  hstep; [guard_upd|clean_by_compute|].
+  exact I.
 Qed.
 
 Lemma w_reregister_faults : pp_run false pp_init w_reregister = Fault.
@@ -46,10 +49,12 @@ Proof. vm_compute. eexists _, _. reflexivity. Qed.
 
 Lemma w_double_disable_ok : hist_ok any_hist spec0 w_double_disable.
 Proof.
-  unfold w_double_disable, any_hist. cbn [hist_ok]. repeat split.
-  - guard_upd.
-  - cbn. guard_upd.
-  - cbn. guard_upd.
+  unfold w_double_disable, any_hist.
+  hstep; [reflexivity|exact I|].
+  hstep; [guard_upd|exact I|].
+  hstep; [guard_upd|exact I|].
+  hstep; [guard_upd|exact I|].
+  hstep; [exact I|exact I|exact I].
 Qed.
 
 Lemma no_report_0 : forall sp ready c r, (forall c0 s, sp c0 = Some s -> s_ev s = 0%N) -> ~ spec_reports sp ready c r.
@@ -71,16 +76,20 @@ Proof. intros [|]; vm_compute; eexists _, _; repeat split. Qed.
 
 Lemma w_fresh_disable_remove_ok : hist_ok any_hist spec0 w_fresh_disable_remove.
 Proof.
-  unfold w_fresh_disable_remove, any_hist. cbn [hist_ok]. repeat split.
-  - guard_upd.
-  - cbn. eexists. split; [reflexivity|]. split; reflexivity.
+  unfold w_fresh_disable_remove, any_hist.
+  hstep; [reflexivity|exact I|].
+  hstep; [guard_upd|exact I|].
+  hstep; [eexists; split; [reflexivity|]; split; reflexivity|exact I|exact I].
 Qed.
 Lemma w_fresh_disable_remove_faults : forall ri, pp_run ri pp_init w_fresh_disable_remove = Fault.
 Proof. intros [|]; vm_compute; reflexivity. Qed.
 
 Lemma w_fresh_disable_poll_ok : hist_ok any_hist spec0 w_fresh_disable_poll.
 Proof.
-  unfold w_fresh_disable_poll, any_hist. cbn [hist_ok]. repeat split. guard_upd.
+  unfold w_fresh_disable_poll, any_hist.
+  hstep; [reflexivity|exact I|].
+  hstep; [guard_upd|exact I|].
+  hstep; [exact I|exact I|exact I].
 Qed.
 Lemma w_fresh_disable_poll_spec : forall c r, ~ spec_reports (spec_run spec0 w_fresh_disable_poll) readyHUP c r.
 Proof.
@@ -91,3 +100,43 @@ Lemma w_fresh_disable_poll_both : forall ri, exists st outs st2 outs2,
   ep_run ep_init w_fresh_disable_poll = Ok (st, outs) /\ last outs [] = [(0, POLLHUP)] /\
   pp_run ri pp_init w_fresh_disable_poll = Ok (st2, outs2) /\ last outs2 [] = [(0, POLLHUP)].
 Proof. intros [|]; vm_compute; eexists _, _, _, _; repeat split. Qed.
+
+Lemma w_backends_differ :
+  hist_ok any_hist spec0 w_double_disable /\
+  (exists st outs, ep_run ep_init w_double_disable = Ok (st, outs) /\ last outs [] = [(0, POLLHUP)]) /\
+  (forall ri, exists st outs, pp_run ri pp_init w_double_disable = Ok (st, outs) /\ last outs [] = []).
+Proof.
+  split; [exact w_double_disable_ok|]. split; [|exact w_double_disable_poll].
+  destruct w_double_disable_epoll as [st [outs [A [B _]]]]. eauto.
+Qed.
+
+(* a history with a swap-and-pop removal of a middle entry followed by an update of the moved channel *)
+Definition w_swap : list op :=
+  [New 0 0; New 1 1; New 2 2; Upd UEnableR 0; Upd UEnableR 1; Upd UEnableW 2;
+   Upd UDisableAll 1; Remove 1; Upd UEnableR 2; Poll (fun _ => 5%N) []].
+Definition both_extra (sp : spec) (o : op) : Prop := sclean sp o /\ sfresh sp o.
+
+Ltac no_taker3 :=
+  intros [c__ [s__ [H__ [R__ F__]]]];
+  do 3 (destruct c__ as [|c__]; [cbn in H__; try discriminate; try (injection H__ as <-; cbn in R__, F__; congruence)|]);
+  cbn in H__; discriminate.
+Ltac guard_upd3 := eexists; split; [reflexivity|]; first [left; reflexivity | right; no_taker3].
+Ltac extra_nz := split; [clean_by_compute|let s := fresh "s" in let H := fresh "H" in intros s H; injection H as <-; reflexivity].
+
+Lemma w_swap_ok : hist_ok both_extra spec0 w_swap.
+Proof.
+  unfold w_swap, both_extra.
+  hstep; [reflexivity|split; exact I|].
+  hstep; [reflexivity|split; exact I|].
+  hstep; [reflexivity|split; exact I|].
+  hstep; [guard_upd3|extra_nz|].
+  hstep; [guard_upd3|extra_nz|].
+  hstep; [guard_upd3|extra_nz|].
+  hstep; [guard_upd3| |].
+  { split.
+    - intros s H. injection H as <-. intros _. split; [reflexivity|]. vm_compute. discriminate.
+    - intros s H. injection H as <-. reflexivity. }
+  hstep; [eexists; split; [reflexivity|]; split; reflexivity|split; exact I|].
+  hstep; [guard_upd3|extra_nz|].
+  hstep; [exact I|split; exact I|exact I].
+Qed.
